@@ -30,6 +30,10 @@ CLAIMED = {
             "Theorems (Properties_C14.v): for every registry with injective cells, every flag list and every parameter, the value the constructor reads after a front-end ran equals the last command-line occurrence or else the registered default (C14_flag_value_is_used); an integrator's write through GetCheckersInfo's info is seen (and would be lost with a deep copy: refuted variant); each threshold predicate is monotone and has the documented exact boundary (size >= threshold reported; exactly maxResults results not reported; bodyWidth statements reported; a chain of exactly minThreshold branches reported; a comment of exactly minLength runes not skipped); countIfelseLen's closed form by induction on the chain. Tie: generated constructs of measure exactly N run at thresholds N-1, N, N+1, 0, 1, 2^30 with the parameter overridden through CheckerInfo.Params, verdicts compared in Coq; random type terms: model gc_sizeof = go/types size = quoted '(N bytes)' = unsafe.Sizeof of a compiled program; random flag lists (incl. repeated flags) through both CLI mains and the analyzer flag set vs run_frontend; CLI/analyzer end-to-end runs with -@hugeParam.sizeThreshold. Oracle: documented boundaries, monotonicity of report sets, parameter values after flag parsing.",
             "Trusted: Coq kernel + vm_compute; bridge op 'params', analyzer hooks; gc sizes modelled for amd64 only; values compared in printed form; ruleguard's own parameters are C18's subject.",
             "§5 C14"),
+    "C17": ("translator-regenerated Coq terms (shipped IR, freshly compiled IR, registry docs, overview rows, doc sub-command output) with decidable-equality theorems re-proved on every run",
+            "Theorems (Properties_C17.v), all over terms regenerated from /repo's working tree on every run: the shipped ruleguard IR equals the IR obtained by compiling checkers/rules/rules.go today (sx_eqb proved sound, equality decided by vm_compute); rule groups and embedded checkers are in bijection preserving name, tags and trimmed summary/before/after/note, with no duplicate group; docs/overview.md's rows and sections are exactly the registered checkers and its total matches; `go-critic doc` lists exactly the registry with tags (marks agree with the selection rule by C06_docs_overview_marks_agree). A stale rulesdata.go, an edited rule, a renamed group or a stale overview breaks a proof obligation; the oracle then reports the first differing group/line as the failing input. Cross-checks independent of the translator: the repository's own go:generate command output compared byte for byte, a fresh makedocs run compared with docs/overview.md.",
+            "Trusted: Coq kernel + vm_compute; the translator (reflection walk of *ir.File, doc parsers); ruleguard's irconv and IR loader are not modelled.",
+            "§5 C17"),
 }
 
 NOT_APPLICABLE = {}
